@@ -474,10 +474,13 @@ class Sem:
         return out
 
     # ------------------------------------------------------------------ written values
-    def synthetic_load(self, cell):
+    def synthetic_load(self, cell, key=None):
+        """the value currently stored in `cell` (at `key` for maps), as the load an update closure is applied to"""
+        if key is not None:
+            return E("call", [E("cell", (), cell), UNKNOWN, key], "cw_storage_plus::Map::load")
         return E("call", [E("cell", (), cell), UNKNOWN], "cw_storage_plus::Item::load")
 
-    def written_value(self, kind, cell, val, expand_ws=True):
+    def written_value(self, kind, cell, val, expand_ws=True, key=None):
         """the value a storage write stores, as an expression (alternatives merged by phi):
         for save: the saved value; for update: the closure's Ok result applied to the
         currently stored value"""
@@ -488,7 +491,7 @@ class Sem:
             clo = w.ident(val)
             if clo.op != "closure":
                 return None
-            res = w.apply_closure(clo, [self.synthetic_load(cell)])
+            res = w.apply_closure(clo, [self.synthetic_load(cell, key)])
             alts = w._ok_alts(res, "ok", 0, True)
             if not alts:
                 return None
